@@ -48,16 +48,16 @@ def history_check(prop, tier, seed, shapes, monitors, modules, profiles, p_inval
 
 
 def check_C01(tier, seed):
-    return history_check("C01", tier, seed, gen.ALL_SHAPES, [mon_c01], ["Soa.Props.C01"], ["debug", "release"])
+    return history_check("C01", tier, seed, gen.ALL_SHAPES, [mon_c01], ["Soa.Props.C01", "Soa.Lemmas.SkelTie"], ["debug", "release"])
 
 def check_C02(tier, seed):
-    return history_check("C02", tier, seed, gen.ALL_SHAPES, [mon_c02], ["Soa.Props.C02", "Soa.Props.World"], ["debug", "release"], p_invalid=0.4)
+    return history_check("C02", tier, seed, gen.ALL_SHAPES, [mon_c02], ["Soa.Props.C02", "Soa.Props.World", "Soa.Lemmas.SkelTie"], ["debug", "release"], p_invalid=0.4)
 
 def check_C03(tier, seed):
-    return history_check("C03", tier, seed, gen.ALL_SHAPES, [mon_c03], ["Soa.Props.C03"], ["debug", "release"], p_invalid=0.3)
+    return history_check("C03", tier, seed, gen.ALL_SHAPES, [mon_c03], ["Soa.Props.C03", "Soa.Lemmas.SkelTie"], ["debug", "release"], p_invalid=0.3)
 
 def check_C08(tier, seed):
-    return history_check("C08", tier, seed, gen.DROP_SHAPES, [mon_c08], ["Soa.Props.C08"], ["debug", "release"])
+    return history_check("C08", tier, seed, gen.DROP_SHAPES, [mon_c08], ["Soa.Props.C08", "Soa.Lemmas.SkelTie"], ["debug", "release"])
 
 
 def check_C04(tier, seed):
